@@ -57,6 +57,7 @@ namespace pika::concurrency::detail {
             //      The above order can be changed arbitrarily but
             //      the nature of execution will still remain the
             //      same.
+            PIKA_VERIF_POINT(100, this);
             do {
                 util::yield_while([this] { return is_locked(); },
                     "pika::concurrency::detail::spinlock::lock", false);
